@@ -3,9 +3,12 @@
    Gen_dqstate (every lock / fast path / wakeup refuses a suspended or inactive word)."""
 import common
 import driver
+import lanes
+from props import c06_slane
 
 PROPERTIES_FILE = "Properties/Properties_C06.v"
-COQ_DEPS = ["Proofs/Suspend_proofs.vo"]
+COQ_DEPS = ["Proofs/Suspend_proofs.vo"] + list(c06_slane.COQ_DEPS)
+EXTRA_PROPERTIES_FILES = [c06_slane.PROPERTIES_FILE]
 GEN_MODULES = ["Gen_dqstate"]
 LEVEL = "proof"
 TRUSTED = [
@@ -56,7 +59,7 @@ def gen_cases(ctx, n):
     return cases
 
 
-def correspond(ctx):
+def correspond_seq(ctx):
     exe, msg = common.build_harness("c06_suspend", ["c06_suspend.c"], whitebox=True)
     if exe is None:
         return {"mismatches": [{"what": "harness build failed", "detail": msg}], "failures": [], "evaluations": 0}
@@ -164,7 +167,7 @@ def rle(ops, opmap):
     return " ++ ".join(parts) if parts else "[]"
 
 
-def replay(ctx, obj):
+def replay_seq(ctx, obj):
     exe, msg = common.build_harness("c06_suspend", ["c06_suspend.c"], whitebox=True)
     for f in obj.get("failures", []):
         c = f.get("case")
@@ -174,3 +177,16 @@ def replay(ctx, obj):
     for b in obj.get("broken", []):
         print("no longer checks:", b)
     return 1
+
+
+TRUSTED += ["protocol part (Properties_C06_slane.v, lib/props/c06_slane.py): " + t for t in c06_slane.TRUSTED]
+ASSUMPTIONS += list(c06_slane.ASSUMPTIONS)
+
+
+def correspond(ctx):
+    return lanes.merge([lanes.run_part("sequential", correspond_seq, ctx),
+                        lanes.run_part("slane", lambda c: c06_slane.correspond(c, tag="c06_slane"), ctx)])
+
+
+def replay(ctx, obj):
+    return lanes.replay_parts(ctx, obj, {"sequential": replay_seq, "slane": c06_slane.replay})
